@@ -900,6 +900,8 @@ def main():
         if pid is None:
             raise ValueError("'-pid' option is required")
         # Delete metadata from HashStore
+        # Without '-formatid' all metadata documents of the pid are deleted (API semantics)
+        formatid = getattr(args, "object_formatid")
         delete_status = hashstore_c.hashstore.delete_metadata(pid, formatid)
         print(
             f"Metadata for pid: {pid} & formatid: {formatid}\nDeleted (T/F): {delete_status}"
